@@ -78,8 +78,11 @@ def guarded_append(prog, cd, rep):
         for pe in paths:
             if pe.kind == "raise":
                 continue
-            apps = [x for e in pe.effects for x in ast.walk(e) if isinstance(x, ast.Call) and isinstance(x.func, ast.Attribute) and x.func.attr == "append"
+            apps = [x for e in pe.effects for x in ast.walk(e) if isinstance(x, ast.Call) and isinstance(x.func, ast.Attribute) and x.func.attr in ("append", "insert", "extend")
                     and is_self_attr(x.func.value, attr, sn)]
+            # an item also enters the list by being stored over another one (`self.<list>[i] = item`, a slice store)
+            apps += [t for e in pe.effects if isinstance(e, (ast.Assign, ast.AugAssign)) for t in (e.targets if isinstance(e, ast.Assign) else [e.target])
+                     if isinstance(t, ast.Subscript) and is_self_attr(t.value, attr, sn)]
             if not apps:
                 continue
             fl = facts.flat_facts(pe.guards)
@@ -112,6 +115,19 @@ def guarded_append(prog, cd, rep):
             rows = body is not None and isinstance(body, ast.Subscript) and norm(body.slice) == "0" and norm(body.value).endswith(".shape")
             if rows:
                 rep.ok("guarded-append", f"{fq}: {K.name}.{tp} is the number of rows of the track's array ({norm(body)})")
+                # .. of the array as it was GIVEN: a constructor that reshapes what it stores (squeeze, reshape, ravel, transpose, atleast_nd)
+                # changes what "rows" means for some shapes (a one-frame (1, 3) track squeezed to (3,) reports three frames)
+                arr = body.value.value if isinstance(body.value, ast.Attribute) else None
+                init = K.get("__init__")
+                if isinstance(arr, ast.Attribute) and init is not None:
+                    RESHAPE = ("squeeze", "reshape", "ravel", "flatten", "transpose", "atleast_1d", "atleast_2d", "atleast_3d", "expand_dims", "swapaxes", "moveaxis", "T")
+                    for st in walk_no_nested(init.node):
+                        if isinstance(st, ast.Assign) and any(is_self_attr(t, arr.attr, init.self_name or "self") for t in st.targets):
+                            hit = next((y for y in ast.walk(st.value) if (isinstance(y, ast.Call) and norm(y.func).split(".")[-1] in RESHAPE) or (isinstance(y, ast.Attribute) and y.attr == "T")), None)
+                            if hit is not None:
+                                rep.fail("guarded-append", K.module.path.name, f"{K.name}.__init__", st, f"`{norm(st)[:60]}` reshapes the sample array it stores (`{norm(hit)[:40]}`): for some shapes "
+                                         f"`{tp}` (its first extent) is no longer the number of frames given, so tracks of the wrong length pass the block's check and right ones fail it",
+                                         construct=f"{K.name}.__init__ reshapes {arr.attr}")
             else:
                 rep.fail("guarded-append", mod, fq, f.node, f"`{p}.{tp}` is not the track's frame count (rows of its sample array)", construct=f"{fq} :: {p}.{tp}")
             pairs[cname] = (K, tp, battr, f.node)
